@@ -215,11 +215,35 @@ class FakeTransport:
 
     def _verify_key(self, host_key, sig):
         from paramiko.ssh_exception import SSHException
+        from paramiko.transport import Transport
 
         self.trace.append("verify:%s:%s" % (hx(host_key), hx(sig)))
         ok = {"yes": True, "no": False}.get(self._verify)
         if ok is None:
-            ok = toy_verify(self._algo, host_key, self.H, sig)
+            # the REAL Transport._verify_key (key lookup, signature-algorithm check, verify_ssh_sig, host_key
+            # attribute) over a toy key class: it returns normally iff sig == toy_sign(algo, host_key, H)
+            algo = self._algo
+
+            class ToyKey:
+                def __init__(self, msg=None, data=None):
+                    self.blob = msg.asbytes() if msg is not None else data
+
+                def asbytes(self):
+                    return self.blob
+
+                def get_name(self):
+                    return algo.decode("ascii")
+
+                def verify_ssh_sig(self, data, msg):
+                    return toy_verify(algo, self.blob, data, msg.asbytes())
+
+            self._key_info = {self.host_key_type: ToyKey}
+            if not hasattr(self, "host_key"):
+                self.host_key = None
+            if hasattr(Transport, "_check_sig_algorithm"):
+                self._check_sig_algorithm = Transport._check_sig_algorithm
+            Transport._verify_key(self, host_key, sig)
+            return
         if not ok:
             raise SSHException("Signature verification failed (fake transport)")
 
@@ -910,3 +934,30 @@ def malformed_scenarios(rng, n):
         sc["label"] = "malformed:" + family(sc)
         out.append(sc)
     return out
+
+
+# ------------------------------------------------------------------------------------------ child interpreter
+def sweep_scenarios(rng, big=False):
+    """the out-of-range sweep: every engine family, both roles"""
+    return group_boundary_scenarios(rng, extra=1) + gex_boundary_scenarios(rng, big=big) + toy_curve_scenarios(rng)
+
+
+def child_main():
+    """entry point of `python -O -c "from pv import lib_kexeng as L; L.child_main()" <seed>`: run the sweep on the
+    real engines in THIS interpreter (whatever its optimisation level) and print one JSON line per case"""
+    import json
+    import random
+    import sys
+    from pv import core
+
+    core.bind_repo()
+    rng = random.Random(int(sys.argv[1]) if len(sys.argv) > 1 else 0)
+    print(json.dumps({"optimize": sys.flags.optimize, "repo": core.REPO}))
+    for sc in sweep_scenarios(rng):
+        try:
+            text = run_scenario(sc)
+        except Exception as e:
+            text = "CRASH " + exc_site(e)
+        extra = {k: (str(sc[k]) if k in ("peer_value", "modulus_p", "gex_p") else sc[k])
+                 for k in ("peer_value", "modulus_p", "gex_p", "point_label", "label") if k in sc}
+        print(json.dumps({"sc": sc_json({k: v for k, v in sc.items() if k not in extra}), "extra": extra, "text": text}))
